@@ -58,6 +58,16 @@ def synthetic_roadm_variety(rng):
             if path_kind != 'express':
                 it['roadm-osnr'] = G.pick(rng, [41, 38, 35])
             out.append(it)
+        # The lookup of the code is "the first listed range that contains the frequency" (comment in
+        # Roadm.get_impairment): ranges listed in any order, and a narrow exception sub-band (e.g. the roll-off at a
+        # band edge) listed before the general range that also contains it.  Ranges share their edge frequencies, so
+        # carriers sitting exactly on an edge belong to two ranges and get the first listed one.
+        if rng.random() < 0.3:
+            rng.shuffle(out)
+        if rng.random() < 0.25:
+            sub = dict(out[0], **{'frequency-range': {'lower-frequency': 193.4e12, 'upper-frequency': 194.1e12},
+                                  'roadm-maxloss': G.pick(rng, [9.0, 14.0, 21.0])})
+            out.insert(0, sub)
         return out
     profiles = [{'roadm-path-impairments-id': 0, 'roadm-express-path': rng_items('express')},
                 {'roadm-path-impairments-id': 1, 'roadm-add-path': rng_items('add')},
